@@ -191,3 +191,24 @@ def allowed_unknown_cases(gen):
                 root.add_child(Node(a) if a == name else gen.minimal_tree(a))
             out.append((f"{element}/{name}", root))
     return out
+
+
+def with_repeated_ids(rng, t, count=None):
+    """The same tree rebuilt (public constructor, explicit ids) with some nodes carrying the id string of an ancestor or of a node in
+    another branch - what loading a saved model twice and pasting one copy into the other gives.  Every node is still its own object
+    at its own place; nothing about validation, pruning or evaluation depends on id strings."""
+    from vlib import snapshot
+    from vlib.emlkit import Node
+    plain = snapshot.to_plain(t)
+    paths = []
+
+    def walk(d, anc):
+        paths.append((d, list(anc)))
+        for c in d.get("children", []):
+            walk(c, anc + [d])
+
+    walk(plain, [])
+    deep = [(d, anc) for d, anc in paths if anc]
+    for d, anc in rng.sample(deep, min(len(deep), count or rng.choice([1, 2, 4]))):
+        d["id"] = rng.choice(anc)["id"] if rng.random() < 0.6 else rng.choice(paths)[0]["id"]
+    return snapshot.from_plain(Node, plain, fresh_ids=False)
